@@ -224,6 +224,11 @@ def run(ctx):
                     flds = sorted({x[2] for x in nodes(e) if x[0] == "field" and not str(x[2]).isdigit()})
                     cs = sorted({c[1].rsplit("::", 1)[-1] for c in expr_calls(e)})
                     row[n] = (tuple(flds), tuple(cs))
+                    if n in ("instructions", "used_qubits"):
+                        # only whether the collection starts empty matters (Vec::new / with_capacity(..) / default)
+                        import re as _re21
+                        fresh = e[0] == "call" and bool(_re21.search(r"(::new$|::default$|::with_capacity$|::with_capacity_and_hasher$|::with_hasher$)", e[1]))
+                        row[n] = ("<fresh empty>",) if fresh else (tuple(flds), tuple(cs))
             adds = call_named(p, "add_instructions")
             row["#add_instructions"] = len(adds)
             if len(adds) == 1:
@@ -244,7 +249,7 @@ def run(ctx):
             elif k.startswith("#"):
                 ok = a == b == 1
             elif k in ("instructions", "used_qubits"):
-                ok = a == b and a is not None and not a[0]
+                ok = a == b == ("<fresh empty>",)
             elif k == "gate_definitions":
                 ok = a == b and a is not None and "initialize_defgate_sequence_expander" in a[1]
             else:
